@@ -7,19 +7,20 @@ Open Scope Z_scope.
 Definition bytes := list byte.
 
 Definition b2z (b : byte) : Z := Z.of_N (Byte.to_N b).
+(* low 8 bits; Z.land / Z.shiftr / Z.shiftl instead of mod / div / mul: linear, not quadratic, on big numbers *)
 Definition z2b (z : Z) : byte :=
-  match Byte.of_N (Z.to_N (z mod 256)) with Some b => b | None => x00 end.
+  match Byte.of_N (Z.to_N (Z.land z 255)) with Some b => b | None => x00 end.
 
 Definition blen (b : bytes) : Z := Z.of_nat (List.length b).
 
 (* int.from_bytes(b, 'big') *)
 Fixpoint be_acc (acc : Z) (l : bytes) : Z :=
-  match l with [] => acc | b :: t => be_acc (acc * 256 + b2z b) t end.
+  match l with [] => acc | b :: t => be_acc (Z.shiftl acc 8 + b2z b) t end.
 Definition be_to_Z (l : bytes) : Z := be_acc 0 l.
 
 (* (v mod 256^len).to_bytes(len, 'big') *)
 Fixpoint Z_to_be (len : nat) (v : Z) : bytes :=
-  match len with O => [] | S k => Z_to_be k (v / 256) ++ [z2b v] end.
+  match len with O => [] | S k => Z_to_be k (Z.shiftr v 8) ++ [z2b v] end.
 
 Definition byte_eqb (a b : byte) : bool := Byte.eqb a b.
 Fixpoint bytes_eqb (a b : bytes) : bool :=
